@@ -72,8 +72,10 @@ impl Uci {
                 .load_position(kind, moves)
                 .map_err(|err| format!("Failed to load position: {err}"))?,
             UCICommand::Go { limits } => {
-                if let Some(jh) = &self.join_handle {
-                    if !jh.is_finished() {
+                if let (Some(jh), Some(is_running)) = (&self.join_handle, &self.search_running) {
+                    // A search clears its flag before it prints bestmove, so a go sent in reply to
+                    // bestmove is accepted even if the finished thread has not exited yet.
+                    if !jh.is_finished() && is_running.load(std::sync::atomic::Ordering::Relaxed) {
                         return Err("Search is already running".to_string());
                     }
                 }
